@@ -36,6 +36,7 @@ for p in $checks; do
   echo "check $p: rc=$rc VIOLATION lines=$n"
 done
 git -C /repo worktree remove --force "$wt"
+tag=$(echo "$wt" | md5sum | cut -c1-8); rm -rf /verif/build/bin-$tag /verif/build/tmp/go-$tag.* /verif/build/tmp/instr-$tag /verif/build/tmp/exoverlay-$tag
 echo "demo_clean=$demo_clean (want 0) suite=$suite (want 0) demo_mut=$demo_mut (want !=0)"
 d=/verif/seeded/$sid
 mkdir -p "$d"
